@@ -16,7 +16,7 @@ TREE = {
  "C12": ("6/C12", "order oracle: deliveries from one sender to one target start, and their data is consumed, in the order sent (per payload id); a removal / despawn caused earlier by the same run is reacted to before a later delivery of that run to the same target starts (also when the poll in between owed the reaction and did not deliver it); the reactions one system gets for the removals of one component are queued in the order the removals happened; a run that misses its own data while the sender has other deliveries to the same target is reported"),
  "C13": ("6/C13", "state oracle: the k-th run of every registration sees Local == captured counter == k; its Bevy change-detection baseline (ReactRes::is_changed sampled by every generated system, predicted from the applied resource mutations) is exactly its previous run (exclusive systems: World change ticks since their previous flush); state dropped only with the system; a system that is collected or gone while it still has registered triggers is reported (state lost while it should live); one generated case in eight is a world-reactor history (engine wr16) judged by the part of its oracle this property shares (Local continuity of world reactors, their system never gone)"),
  "C15": ("6/C15", "one-off oracle: dispatch/lifetime/run-count oracles specialised to reactors registered with `once` (at most one run, gone and unregistered afterwards, empty bundle dropped)"),
- "C18": ("6/C18", "fault-injection oracle (plus one generated case in eight from the world-reactor engine wr16, incl. EntityReactor::add on an entity despawned earlier in the same batch): ops naming despawned systems/entities; no panic, no run of a dead system, payload released, every other oracle still holds in that tree; system events aimed at entities that carry no system; automatic despawn requests naming dead entities"),
+ "C18": ("6/C18", "fault-injection oracle (plus one generated case in eight from the world-reactor engine wr16, incl. EntityReactor::add on an entity despawned earlier in the same batch, and one in eight from the syscall engine sys17, panics only: spawned systems despawned before or during a call): ops naming despawned systems/entities; no panic, no run of a dead system, payload released, every other oracle still holds in that tree; system events aimed at entities that carry no system; automatic despawn requests naming dead entities"),
 }
 
 def check(pid, engine, design, text, technique, note):
@@ -45,11 +45,11 @@ checks.append(check("C14", "acc14", "6/C14",
     "property-based testing: proptest-generated call histories, reference model oracle, shrinking, JSON replay",
     "exploration only; probe reactors are the observation device; a mutation trigger whose entity died before its application still runs the type-wide reactors (exactly one trigger per call)"))
 checks.append(check("C17", "sys17", "6/C17",
-    "syscall oracle: histories of calls over syscall / named_syscall / register_named_system + named_syscall_direct / spawn_system + spawned_syscall / Commands::syscall / Commands::spawned_syscall / syscall_once (World, Commands, EntityCommands) / EntityCommands::syscall / spawn_rc_system (+ signal drop and collection) / Commands::insert_system / IdMappedSystems::revoke with nesting and command-issued calls; a key -> count model predicts every return value, the order of every queued-command effect visible on return, and every error; validation variants run their validation exactly when the key's state is created; a spawned system despawned during its own call still returns its output; each key's change-detection baseline is its own; cached systems see entities in archetypes created between calls (Query)",
+    "syscall oracle: histories of calls over syscall / named_syscall / register_named_system + named_syscall_direct / spawn_system + spawned_syscall / Commands::syscall / Commands::spawned_syscall / syscall_once (World, Commands, EntityCommands) / EntityCommands::syscall / spawn_rc_system (+ signal drop and collection) / Commands::insert_system / IdMappedSystems::revoke with nesting and command-issued calls; a key -> count model predicts every return value, the order of every queued-command effect visible on return, and every error; validation variants run their validation exactly when the key's state is created; a spawned system despawned during its own call still returns its output; each key's change-detection baseline is its own; cached systems see entities in archetypes created between calls (Query); callbacks handed to the _from entry points may have been initialised 0-2 times by their owner",
     "property-based testing: proptest-generated call histories, reference model oracle, shrinking, JSON replay",
     "exploration only; a re-entrant call on a running syscall / named key is generated with its own count left open (documented: only the outer-most invocation's state persists)"))
 checks.append(check("C10", "rc10", "6/C10",
-    "reference-count oracle: histories of prepare / clone / drop / garbage-collect / app.update / manual-despawn / spawn-child / reparent operations plus worker-thread drops, injected faults (a clone dropped by the unwinding of a caught panic; worker threads dying while holding clones) and clones held by components of other entities (dropped in the middle of a collection pass); after every operation the set of live entities equals the count model (collected exactly when the last clone is gone, with descendants; never earlier; collections idempotent); a collection pass interrupted by a panicking removal hook loses nothing that waited behind the fault; two clones of 40-160 entities dropped by two barrier-released threads; half of the cases run under the whole ReactPlugin with commands / system events aimed at counted entities (the runner must leave them alone) and despawn reactors registered on them; counted entities made by spawn_rc_system_command(_from) / spawn_rc_system(_from)",
+    "reference-count oracle: histories of prepare / clone / drop / garbage-collect / app.update / manual-despawn / spawn-child / reparent operations plus worker-thread drops, injected faults (a clone dropped by the unwinding of a caught panic; worker threads dying while holding clones) and clones held by components of other entities (dropped in the middle of a collection pass); after every operation the set of live entities equals the count model (collected exactly when the last clone is gone, with descendants; never earlier; collections idempotent); a collection pass interrupted by a panicking removal hook loses nothing that waited behind the fault; two clones of 40-160 entities dropped by two barrier-released threads; half of the cases run under the whole ReactPlugin with commands / system events aimed at counted entities (the runner must leave them alone) and despawn reactors registered on them; counted entities made by spawn_rc_system_command(_from) / spawn_rc_system(_from), whose spawned system can be called and can strip its own entity during the call",
     "property-based testing: proptest-generated operation histories (incl. OS-thread drop schedules), reference-count model oracle, shrinking, JSON replay",
     "exploration only; thread interleavings are sampled by the OS scheduler, not enumerated (the checked invariants are schedule independent)"))
 checks.append(check("C16", "wr16", "6/C16",
